@@ -23,6 +23,9 @@ pub struct Agg {
     pub replays_agreed: u64,
     pub replays_diverged: u64,
     pub diverged_runs: Vec<u64>,
+    /// per-run outcome digests, only collected for the determinism self-check
+    #[serde(default)]
+    pub per_run: Vec<(u64, u64)>,
     pub samples: Vec<(u64, Trace)>,
     pub violations: Vec<(u64, Violation)>,
     pub harness_errors: Vec<(u64, String)>,
@@ -49,7 +52,11 @@ impl Agg {
                 e.insert(*h);
             }
         }
-        self.digest ^= crate::rng::mix(crate::rng::mix(run, trace_digest), o.digest ^ crate::rng::fnv(&o.ended));
+        let d = crate::rng::mix(crate::rng::mix(run, trace_digest), o.digest ^ crate::rng::fnv(&o.ended));
+        self.digest ^= d;
+        if std::env::var("VERIF_PER_RUN").is_ok() {
+            self.per_run.push((run, d));
+        }
         if let Some(v) = &o.violation {
             self.violations.push((run, v.clone()));
         }
@@ -80,6 +87,7 @@ impl Agg {
         self.replays_diverged += o.replays_diverged;
         self.diverged_runs.extend(o.diverged_runs);
         self.samples.extend(o.samples);
+        self.per_run.extend(o.per_run);
         self.violations.extend(o.violations);
         self.harness_errors.extend(o.harness_errors);
     }
